@@ -449,7 +449,7 @@ func Run(tier string) int {
 	res.Sample(map[string]any{"path": []string{"convertERC20(directmanip,half)", "transferToModule(honest,all)"}})
 	return engine.Finish(res, engine.Meta{
 		Property: Prop, Tier: tier, Level: "model_checking", Start: start,
-		Rule:   "all sequences <= depth over 63 operations: for each of 5 pairs (coin-origin; ERC20-origin honest / malicious-delayed / direct-balance-manipulation / fake-Transfer-log) convertCoin and convertERC20 with {1, half, all, all+1}, ERC20 transfer to the module address (hook path) with {1, half, all}, bank send of the paired denomination, pair toggle; plus a holder burn; backing invariants after every operation, exact-or-nothing step oracle; part B: all sequences <= 4 (thorough 5) over 30 operations on a fixture with a sixth pair (the IBC voucher of the coin-origin denomination): ibcSend of {coin-origin, voucher going home, ERC20-origin} x {1, all of coins+tokens, all+1} to a valid / garbage receiver, ibcRecv, ack, timeout, convertCoin / convertERC20 of both users, pair toggles - the sender's coins+tokens fall by exactly the amount and the channel escrow grows / the voucher supply falls by it, the recipient's coins+tokens of the arriving denomination rise by exactly the amount, an error acknowledgement or timeout gives the sender exactly the amount back, every rejected step changes nothing, backing invariants and constant supply of the coin-origin denomination in every state; non-trivial = successful conversion distinct by (path, token, amount class)",
+		Rule:   "all sequences <= depth over 63 operations: for each of 5 pairs (coin-origin; ERC20-origin honest / malicious-delayed / direct-balance-manipulation / fake-Transfer-log) convertCoin and convertERC20 with {1, half, all, all+1}, ERC20 transfer to the module address (hook path) with {1, half, all}, bank send of the paired denomination, pair toggle; plus a holder burn; backing invariants after every operation, exact-or-nothing step oracle; part B: all sequences <= 4 (thorough 5) over 30 operations on a fixture with a sixth pair (the IBC voucher of the coin-origin denomination): ibcSend of {coin-origin, voucher going home, ERC20-origin} x {1, all of coins+tokens, all+1} to a valid / garbage receiver, ibcRecv, ack, timeout, convertCoin / convertERC20 of both users, pair toggles - the sender's coins+tokens fall by exactly the amount and the channel escrow grows / the voucher supply falls by it, the recipient's coins+tokens of the arriving denomination rise by exactly the amount, an error acknowledgement or timeout gives the sender exactly the amount back, every rejected step changes nothing, backing invariants and constant supply of the coin-origin denomination in every state; part B2: the same legs for the rogue tokens (direct balance manipulation, delayed) incl. transfer to the module, a third party's transferFrom, and vouchers sent back home; non-trivial = successful conversion distinct by (path, token, amount class)",
 		Bounds: map[string]any{"depth": bounds(tier)},
 		Assumptions: []string{
 			"IBC legs (part B) run over two transfer channel ends written on ibc-go's sentinel localhost connection: packets loop back to the same chain through the real MsgTransfer wrapper, MsgRecvPacket, MsgAcknowledgement and MsgTimeout handlers; at most one packet is in flight",
